@@ -174,6 +174,21 @@ CLAIMED["C14"] = dict(
     technique="Lean 4 proof (fold invariants over the right-to-left splicing, homomorphic views) + differential correspondence + parser oracle",
     design="§5 C14")
 
+CLAIMED["C15"] = dict(
+    text=("Lean theorems (text side, all texts and edit lists): findMatch_exact (an exact occurrence with balanced markers "
+          "is matched as it stands), matchesFrom_exact + C15_all_marked (every edit of a list with exact, pairwise "
+          "non-overlapping targets is marked, one suggestion each), C15_preview_accepts_replacement_partial / "
+          "C14_accept_exact (the accepted reading of the preview is the simultaneous replacement — the reference the commit "
+          "is held to). The commit side is not a theorem: it is tied by the engine model's whole-document correspondence "
+          "(C01/C02/C08 checks) and decided here by a differential oracle on the real code: same generated document "
+          "(plain, redlined, heavily formatted) and same batch through apply_edits_to_markdown(extract(clean)) and "
+          "through RedlineEngine — marked set == applied set (each edit also committed on its own), batch counts, "
+          "accepted preview == accepted view of the committed document (markers aside). Correspondence: preview of the "
+          "accepted view vs the Lean preview model."),
+    note=NOTE_COMMON + "ALL-CAPS bold paragraphs (headings by heuristic only) are not rewritten; the session author's name is chosen so that it cannot be part of a target.",
+    technique="Lean 4 proof of the preview side + differential oracle preview vs commit on the real code + correspondence of the preview model",
+    design="§5 C15")
+
 PENDING = {
 }
 
